@@ -612,7 +612,44 @@ func (g *G) Template() []string {
 	k := 1 + g.pick(6)
 	e := func() string { return g.expr(tInt, 1) }
 	deepn := []int{1, 5, 40, 130, 300}[g.pick(5)]
-	switch g.pick(14) {
+	switch g.pick(17) {
+	case 14, 15, 16: // every statement form as the tail of a function, with both outcomes: the value may be absent
+		cond := []string{"c", "!c", "c & d", "c | d", "c == d", "d"}[g.pick(6)]
+		// a body that starts with ( [ or - would continue the condition before it
+		b := func() string {
+			x := e()
+			if strings.HasPrefix(x, "(") || strings.HasPrefix(x, "[") || strings.HasPrefix(x, "-") {
+				return "{\n" + x + "\n}"
+			}
+			return x
+		}
+		tails := []string{
+			"if " + cond + " " + b(),
+			"if " + cond + " " + b() + " else " + b(),
+			"if " + cond + " {\nif d " + b() + "\n}",
+			"if " + cond + " {\nif d " + b() + " else " + b() + "\n} else {\nif !d " + b() + "\n}",
+			"if " + cond + " return " + e(),
+			"zi = 0\nwhile zi < " + n(g.pick(3)) + " {\nzi = zi + 1\nif " + cond + " zi * " + e() + "\n}",
+			"for zv <- fromto(0, " + n(g.pick(3)) + ") if " + cond + " zv + " + e(),
+			"for zv <- fromto(0, " + n(g.pick(3)) + ") {\nif " + cond + " return zv\n}",
+			"if " + cond + " {\n" + e() + "\n}",
+			"zq = " + e() + "\nif " + cond + " zq = zq + 1",
+			"while " + cond + " return " + e(),
+		}
+		tail := tails[g.pick(len(tails))]
+		pre := ""
+		if g.pick(2) == 0 {
+			pre = "zp = " + e() + "\n"
+		}
+		body := tail
+		if pre != "" || strings.Contains(tail, "\n") && !isSingle(tail) || g.pick(2) == 0 {
+			body = "{\n" + pre + tail + "\n}"
+		}
+		return []string{
+			a + " = (c, d) -> " + body,
+			"[" + a + "(true, true), " + a + "(true, false), " + a + "(false, true), " + a + "(false, false)]",
+			a + "(false, " + []string{"true", "false"}[g.pick(2)] + ")",
+		}
 	case 0: // closure factory with update after capture and deep call
 		return []string{
 			"deep = (n) -> if n <= 0 0 else 1 + deep(n - 1)",
